@@ -183,6 +183,9 @@ def run(ctx):
         h, ops, expected, c, b, directed = hs[fi]
         pr = cont.parse_cr(r)
         distinct.add(line)
+        if r.strip() == "(budget)":
+            dist["skipped/recording-budget"] += 1     # the harness' recording visitor gave up (> 2M recorded elements): not a crash of the crate
+            continue
         if "crash" in pr or "(panic" in r:
             violations.append({"impl_case": line[:3000], "what": "reader panicked or crashed (%s at %d)" % (kind, k), "impl": r[:300]})
             continue
